@@ -642,6 +642,19 @@ func (d *Driver) stepTrustFlip() {
 		d.noteSealed(&fv)
 		d.enqueue(n, &fv)
 	}
+	// the sealer is not trusted any more: its next overdrawing vertex is an ordinary tentative tip that must fail the
+	// funds test when the node builds on it
+	if l2, r2, w2, ok := d.pickParents(n); ok {
+		if t2, ok := d.makeTransfer(true); ok && t2.IssuerAddress != x.Addr {
+			v2 := ForgeVertex(x, t2, l2, r2, w2, w.Now())
+			if err := w.Deliver(n, &v2, "trustflip/overdraft-by-the-formerly-trusted-sealer"); err == nil {
+				d.noteSealed(&v2)
+				d.enqueue(n, &v2)
+				c2 := w.NewTrx(w.Users[0], w.Users[1].Addr, spice.Melange{}, []byte("confirm"))
+				d.proposeOn(n, &c2, "trustflip/confirm-after-withdrawal")
+			}
+		}
+	}
 	w.Res.Count("ops_trust_flip", 1)
 }
 
